@@ -16,6 +16,7 @@
 From Coq Require Import List ZArith Bool.
 From NT Require Import Sx Rose DictList DictListProofs CaseC14 CaseC14Facts.
 From NT Require MiscMapper MiscMapperProofs.   (* part MAPPER, imported at the end of this file *)
+From NT Require MiscRepr MiscCommon MiscCommonProofs.   (* part COMMONMISC, imported at the end of this file *)
 From NTGen Require Import Generated.
 Import ListNotations.
 
@@ -363,3 +364,65 @@ Example C14_mapper_ex_none :
   call_mapper (Some (CB [MSet [97%Z] (PInt 6); MRename [97%Z] [98%Z]; MSet [99%Z] PNone] RNone)) [([97%Z], PInt 5); ([120%Z], PStr [])] =
   OData [([120%Z], PStr []); ([98%Z], PInt 6); ([99%Z], PNone)].
 Proof. exact ex_none_uses_mutated. Qed.
+
+(* ==== PART COMMONMISC: common.check_python_version / PYTHON_VERSION / tree.MIN_PYTHON_VERSION_INFO and the exception
+   hierarchy (model theories/Forest/MiscCommon.v, correspondence Cases/CaseMiscCommon.v under a patched sys.version_info,
+   harness parts_misc.COMMONMISC).  [cur3] = the three int components of sys.version_info, whose fourth is the str 'final'. ==== *)
+Import MiscRepr MiscCommon MiscCommonProofs.
+
+(* tuple `<` is lexicographic: "less" exactly when a first differing position exists and holds a smaller component *)
+Theorem C14_version_tuple_order : forall a b,
+  cmp_prefix a b = Some true <-> exists p x y a' b', a = p ++ x :: a' /\ b = p ++ y :: b' /\ (x < y)%Z.
+Proof. exact cmp_prefix_lt_iff. Qed.
+Print Assumptions C14_version_tuple_order.
+
+(* True exactly when the running version is not less than the minimum; a DeprecationWarning exactly when the answer is False *)
+Theorem C14_version_check_spec : forall real3 cur3 minv,
+  match check_python_version real3 cur3 minv with
+  | inl e => version_lt cur3 minv = inl e
+  | inr (r, w) => version_lt cur3 minv = inr (negb r) /\ (w = None <-> r = true)
+  end.
+Proof. exact check_python_version_spec. Qed.
+Print Assumptions C14_version_check_spec.
+
+(* a minimum of at most three components never raises; (a longer one reaches 'final' and raises TypeError: see the Example) *)
+Theorem C14_version_check_total : forall cur3 minv, length cur3 = 3%nat -> (length minv <= 3)%nat -> exists r, version_lt cur3 minv = inr r.
+Proof. exact check_python_version_total. Qed.
+Print Assumptions C14_version_check_total.
+
+(* an interpreter at or above [maj; mnr] is accepted silently, one below is answered False with a warning naming both versions *)
+Theorem C14_version_supported : forall real3 maj mnr c2 c3,
+  (mnr <= c2)%Z -> check_python_version real3 [maj; c2; c3] [maj; mnr] = inr (true, None).
+Proof. exact check_python_version_supported. Qed.
+Print Assumptions C14_version_supported.
+
+Theorem C14_version_deprecated : forall real3 maj mnr c2 c3,
+  (c2 < mnr)%Z ->
+  check_python_version real3 [maj; c2; c3] [maj; mnr] =
+  inr (false, Some (t_warn1 ++ (repr_int maj ++ [46%Z] ++ repr_int mnr) ++ t_warn2 ++ python_version real3 ++ [41%Z])).
+Proof. exact check_python_version_deprecated. Qed.
+Print Assumptions C14_version_deprecated.
+
+(* tie to the source (gen_facts section MISCCOMMON): the comparison is `<`, the branches return False / True, the message
+   shows three components, tree.py checks MIN_PYTHON_VERSION_INFO = (3, 8) at import; both library errors are TreeErrors,
+   TreeError is a RuntimeError (so `except RuntimeError` sees them), neither is the other, none is a ValueError *)
+Theorem C14_common_source_facts :
+  GEN_MISCCOMMON_OK = true /\ VERSION_CHECK_OP = [60%Z] /\ VERSION_CHECK_RETURNS = [false; true] /\ VERSION_CHECK_SLICE = 3%Z /\
+  VERSION_CHECKED_AT_IMPORT = true /\ MIN_PYTHON_VERSION_INFO = [3; 8]%Z /\
+  let U := [85; 110; 105; 113; 117; 101; 67; 111; 110; 115; 116; 114; 97; 105; 110; 116; 69; 114; 114; 111; 114]%Z in
+  let Am := [65; 109; 98; 105; 103; 117; 111; 117; 115; 77; 97; 116; 99; 104; 69; 114; 114; 111; 114]%Z in
+  let Te := [84; 114; 101; 101; 69; 114; 114; 111; 114]%Z in
+  let Re := [82; 117; 110; 116; 105; 109; 101; 69; 114; 114; 111; 114]%Z in
+  let Ve := [86; 97; 108; 117; 101; 69; 114; 114; 111; 114]%Z in
+  map (fun c => map (is_subclass 4 ERROR_BASES c) [Te; Re; U; Am; Ve]) [U; Am; Te] =
+  [[true; true; true; false; false]; [true; true; false; true; false]; [true; true; false; false; false]].
+Proof. vm_compute. repeat split. Qed.
+Print Assumptions C14_common_source_facts.
+
+(* non-vacuity: on 3.12.1 – (3,8) accepted; (3,12,2) deprecated with the message; (3,12,1,0) reaches 'final': TypeError *)
+Example C14_version_ex :
+  map (check_python_version [3; 12; 1] [3; 12; 1])%Z [[3; 8]; [3; 12; 2]; [3; 12; 1; 0]]%Z =
+  [inr (true, None);
+   inr (false, Some (t_warn1 ++ [51; 46; 49; 50; 46; 50]%Z ++ t_warn2 ++ [51; 46; 49; 50; 46; 49; 41]%Z));
+   inl E_TYPE].
+Proof. vm_compute. reflexivity. Qed.
